@@ -1,0 +1,13 @@
+//go:build verif
+// +build verif
+
+package discover
+
+import "github.com/hashicorp/serf/serf"
+
+// Hooks for the verification harness (/verif). Built only with -tags verif.
+
+// VerifNewSerfNetFromChan returns the gossip-event translator fed from a channel (no serf agent).
+func VerifNewSerfNetFromChan(ch chan serf.Event) Membership {
+	return &serfNet{eventch: ch}
+}
